@@ -15,6 +15,7 @@ from __future__ import annotations
 import configparser
 import io
 import json
+import os
 import random
 import warnings
 
@@ -128,6 +129,71 @@ def render(cfg, rnd=None, partial=False, has_schemes=True):
     return d
 
 
+def ini_text(d, section):
+    """a change written by hand as an INI section (documented format: one `key = value` per line, lists comma separated, '%' doubled)"""
+    lines = [f"[{section}]"]
+    for k, v in d.items():
+        if isinstance(v, (list, tuple)):
+            v = ", ".join(getattr(x, "name", x) for x in v)
+        lines.append(f"{k} = {str(v).replace('%', '%%')}")
+    return "\n".join(lines) + "\n"
+
+
+MARKERS = ["!%locked%", "*%", "!a%%b", "!%(here)s", "!x;y", "!#x", "!a=b", "!a:b", "*\xe9\u20ac", "!100%", "*[x]"]
+
+
+def string_options(chk):
+    """ContextLife's Import(Export(cfg)) = cfg for free-form text values: a disabled-account marker containing characters that mean
+    something to an INI reader survives every export/import route and an update with the context's own export is a no-op"""
+    import tempfile
+    from passlib.context import CryptContext
+    for m in MARKERS:
+        for cat in (None, "admin"):
+            key = ("admin__" if cat else "") + "unix_disabled__marker"
+            ctx = CryptContext(schemes=["sha256_crypt", "unix_disabled"], sha256_crypt__default_rounds=1000, **{key: m})
+            routes = {}
+            try:
+                text = ctx.to_string()
+                routes["from_string"] = lambda: CryptContext.from_string(text)
+                routes["dict"] = lambda: CryptContext(**ctx.to_dict())
+
+                def via_path(update):
+                    with tempfile.NamedTemporaryFile("w", suffix=".ini", delete=False, encoding="utf-8") as fh:
+                        fh.write(text)
+                    try:
+                        if update:
+                            c = ctx.copy()
+                            c.load_path(fh.name, update=True)
+                            return c
+                        return CryptContext.from_path(fh.name)
+                    finally:
+                        os.unlink(fh.name)
+                routes["from_path"] = lambda: via_path(False)
+                routes["load_path-update"] = lambda: via_path(True)
+
+                def upd():
+                    c = ctx.copy()
+                    c.update(text)
+                    return c
+                routes["update-own-export"] = upd
+                routes["copy"] = ctx.copy
+            except Exception as ex:
+                chk.violation("string-option:export", f"exporting a context whose marker is {m!r} raised {type(ex).__name__}: {ex}", {"marker": m, "category": cat})
+                continue
+            for rname, fn in routes.items():
+                chk.evaluations += 1
+                chk.count(("string-option", rname, cat, MARKERS.index(m)))
+                chk.action("string-option:" + rname)
+                try:
+                    c2 = fn()
+                    got = (c2.handler("unix_disabled", category=cat).default_marker if cat else c2.disable(), c2.to_dict() == ctx.to_dict())
+                except Exception as ex:
+                    got = f"{type(ex).__name__}: {ex}"[:100]
+                if got != (m, True):
+                    chk.violation(f"string-option:{rname}", f"marker {m!r} ({'admin' if cat else 'default'} category) through {rname}: disable() / same export = {got}, expected {(m, True)}",
+                                  {"marker": m, "category": cat, "route": rname, "export": text})
+
+
 def norm_dict(d):
     out = {}
     d = dict(d)
@@ -225,10 +291,30 @@ def run_behaviour(chk, T, beh, rnd):
                 d = render(st["patch"]["cfg"], rnd, partial=True, has_schemes=st["patch"]["hasSchemes"])
                 if st["patch"]["hasSchemes"]:
                     d["schemes"] = [OBJ.get(s, s) for s in st["patch"]["cfg"]["schemes"]]
-                if rnd.random() < .5:
+                route = rnd.choice(["kwds", "dict", "load-dict", "text", "load-text", "path"])
+                if route in ("text", "load-text", "path") and any(not isinstance(x, str) for x in d.get("schemes", [])):
+                    route = "load-dict"          # an INI text can only name registered hashers
+                if route == "kwds":
                     real[i].update(**d)
-                else:
+                elif route == "dict":
                     real[i].update(d)
+                elif route == "load-dict":
+                    real[i].load(d, update=True)
+                else:
+                    section = rnd.choice(["passlib", "myapp-policy"])
+                    text = ini_text(d, section)
+                    if route == "text" and section == "passlib":
+                        real[i].update(text)
+                    elif route == "path":
+                        import tempfile
+                        with tempfile.NamedTemporaryFile("w", suffix=".ini", delete=False, encoding="utf-8") as fh:
+                            fh.write("[other]\nschemes = nothing\n\n" + text + "\n[trailer]\nx = 1\n")
+                        try:
+                            real[i].load_path(fh.name, section=section, update=True)
+                        finally:
+                            __import__("os").unlink(fh.name)
+                    else:
+                        real[i].load(text, section=section, update=True)
             elif op == "copy":
                 real[1] = real[0].copy()
             elif op == "to_dict":
@@ -338,6 +424,7 @@ def run(chk):
         chk.sample({"behaviour_head": [{"op": s["op"], "ctx": s["i"], "armed": s["armed"], "res": s["res"],
                                         "patch": render(s["patch"]["cfg"], None, has_schemes=s["patch"]["hasSchemes"])} for s in behs[0][:4]]})
     chk.extra["behaviours"] = len(behs)
+    string_options(chk)
     chk.assumptions += ["the fault-injection handler 'faulty' is registered with passlib's registry for the duration of the check (no /repo change)",
                         "percent vary_rounds are limited to whole percents (INI export keeps two decimals)"]
 
